@@ -517,7 +517,11 @@ func execPk(secret []byte, magic string, ini bool, pkts []string, tam string, re
 	for _, pk := range pkts {
 		f := strings.Split(pk, ":")
 		ln, sd, aadLen := atoi(f[0]), atoi(f[1]), atoi(f[3])
-		if _, _, err := snd.V2EncPacket(fill(sd, ln), fill(sd+1, aadLen), f[2] == "1"); err != nil {
+		if h := atoi(f[2]); h >= 2 {
+			if snd.VerifEncRawC19(byte(h), fill(sd, ln), fill(sd+1, aadLen)) != nil {
+				return "bad-op"
+			}
+		} else if _, _, err := snd.V2EncPacket(fill(sd, ln), fill(sd+1, aadLen), h == 1); err != nil {
 			return "bad-op"
 		}
 	}
